@@ -707,6 +707,357 @@ fn msg_ops(out: &mut Out, p: Pair, limit: usize, full: bool, max_rounds: usize, 
     }
 }
 
+// ------------------------------------------------------------------------------------------------
+// the AntiEntropyManager protocol as a state machine: three real managers, message registers
+// (digests / requests / responses are VALUES that can be processed late, twice, or by another
+// node), local writes between any two steps
+// ------------------------------------------------------------------------------------------------
+
+struct Sess {
+    mgrs: Vec<AntiEntropyManager>,
+    sts: Vec<ShardReplicaState>,
+    depth: Vec<usize>,
+    digs: BTreeMap<u64, StateDigest>,
+    verdicts: BTreeMap<usize, Option<Vec<usize>>>,
+    reqs: BTreeMap<u64, redis_sim::replication::anti_entropy::SyncRequest>,
+    resps: BTreeMap<u64, redis_sim::replication::anti_entropy::SyncResponse>,
+    now: u64,
+}
+
+const NODE: [&str; 3] = ["a", "b", "c"];
+
+fn set_str(s: &std::collections::HashSet<ReplicaId>) -> String {
+    let mut v: Vec<u64> = s.iter().map(|r| r.0).collect();
+    v.sort();
+    v.iter().map(|x| x.to_string()).collect::<Vec<_>>().join(",")
+}
+
+impl Sess {
+    fn send_state(&self, out: &mut Out, n: usize) {
+        op_state(out, NODE[n], self.depth[n], &self.sts[n].replicated_keys);
+    }
+    fn dig(&mut self, out: &mut Out, id: u64, n: usize) {
+        self.send_state(out, n);
+        let d = self.mgrs[n].generate_digest(&self.sts[n].replicated_keys);
+        out.op(format!("MDIG {} {}", id, NODE[n]), format!("dg rid={} gen={} root={} count={} nb={}", d.replica_id.0, d.generation, d.root_hash, d.key_count, d.buckets.len()));
+        self.digs.insert(id, d);
+    }
+    fn proc(&mut self, out: &mut Out, n: usize, id: u64) {
+        let Some(pd) = self.digs.get(&id).cloned() else { return };
+        self.send_state(out, n);
+        let ours = self.mgrs[n].generate_digest(&self.sts[n].replicated_keys);
+        let differs = ours.differs_from(&pd);
+        let peer = pd.replica_id;
+        let v = self.mgrs[n].process_peer_digest(pd, &ours);
+        let vs = match &v { None => "none".to_string(), Some(l) => format!("div={}", l.iter().map(|x| x.to_string()).collect::<Vec<_>>().join(",")) };
+        out.op(format!("MPROC {} {}", NODE[n], id), format!("proc {} dp={}", vs, set_str(&self.mgrs[n].divergent_peers)));
+        if v.is_some() != differs || self.mgrs[n].divergent_peers.contains(&peer) != differs || !self.mgrs[n].peer_digests.contains_key(&peer) {
+            out.violation("C18:session:process-peer-digest", "process_peer_digest: verdict / divergent_peers / peer_digests do not follow differs_from",
+                json!({"node": NODE[n], "peer": peer.0, "differs": differs, "verdict": vs}));
+        }
+        self.verdicts.insert(n, v);
+    }
+    fn req(&mut self, out: &mut Out, id: u64, n: usize, peer: usize, full: bool) {
+        self.send_state(out, n);
+        self.now += 7;
+        let ours = self.mgrs[n].generate_digest(&self.sts[n].replicated_keys);
+        let buckets = if full { None } else { self.verdicts.get(&n).cloned().unwrap_or(None) };
+        let pid = self.mgrs[peer].replica_id;
+        let rq = self.mgrs[n].create_sync_request(pid, ours, buckets, self.now);
+        let bs = match &rq.requested_buckets { None => "none".to_string(), Some(l) => l.iter().map(|x| x.to_string()).collect::<Vec<_>>().join(",") };
+        out.op(format!("MREQ {} {} {} {} {}", id, NODE[n], pid.0, full as u8, self.now),
+            format!("req from={} to={} buckets={} root={} gen={}", rq.from_replica.0, rq.to_replica.0, bs, rq.digest.root_hash, rq.digest.generation));
+        self.reqs.insert(id, rq);
+    }
+    fn handle(&mut self, out: &mut Out, rid: u64, n: usize, qid: u64) {
+        let Some(rq) = self.reqs.get(&qid).cloned() else { return };
+        self.send_state(out, n);
+        let requested = rq.requested_buckets.clone();
+        let rs = self.mgrs[n].handle_sync_request(rq, &self.sts[n].replicated_keys);
+        out.op(format!("MHANDLE {} {} {}", rid, NODE[n], qid),
+            format!("resp from={} keys={} root={} dp={}", rs.from_replica.0, rs.deltas.iter().map(|d| hex(d.key.as_bytes())).collect::<Vec<_>>().join(","), rs.digest.root_hash, set_str(&self.mgrs[n].divergent_peers)));
+        // oracle: the answer comes from the responder's CURRENT state, inside the request, within the limit
+        let cur = &self.sts[n].replicated_keys;
+        let limit = self.mgrs[n].config.max_keys_per_sync.max(1);
+        let depth = self.depth[n];
+        let in_req = |k: &String| match &requested { None => true, Some(b) => cur.get(k).map(|v| b.contains(&KeyDigest::new(k, v).bucket(depth))).unwrap_or(false) };
+        let pop = cur.keys().filter(|k| in_req(k)).count();
+        let bad = rs.deltas.iter().any(|d| cur.get(&d.key).map(MRv::from_real) != Some(MRv::from_real(&d.value)) || !in_req(&d.key) || d.source_replica != self.mgrs[n].replica_id)
+            || rs.deltas.len() != limit.min(pop)
+            || rs.deltas.iter().map(|d| &d.key).collect::<BTreeSet<_>>().len() != rs.deltas.len();
+        if bad {
+            out.violation("C18:session:response", "handle_sync_request: the answer is not min(limit, population) distinct entries of the responder's CURRENT state inside the requested buckets",
+                json!({"responder": NODE[n], "requested_buckets": requested, "answered": rs.deltas.iter().map(|d| d.key.clone()).collect::<Vec<_>>(), "population": pop, "limit": limit, "state": show_state("s", cur)}));
+        }
+        self.resps.insert(rid, rs);
+    }
+    fn apply(&mut self, out: &mut Out, n: usize, rid: u64, what: &str) {
+        let Some(rs) = self.resps.get(&rid).cloned() else { return };
+        self.send_state(out, n);
+        let pre = self.sts[n].replicated_keys.clone();
+        let mut want = pre.clone();
+        for d in &rs.deltas {
+            let v = match want.get(&d.key) { Some(x) => x.merge(&d.value), None => d.value.clone() };
+            want.insert(d.key.clone(), v);
+        }
+        for d in rs.deltas.clone() {
+            self.sts[n].apply_remote_delta(d);
+        }
+        out.op(format!("MAPPLY {} {}", NODE[n], rid), show_state("s", &self.sts[n].replicated_keys));
+        out.count(&format!("session:apply:{}", what));
+        if canon(&want) != canon(&self.sts[n].replicated_keys) {
+            out.violation("C18:session:not-merged", &format!("merging a response ({}) did not leave merge(current own, answered) on every answered key and everything else untouched", what),
+                json!({"node": NODE[n], "what": what, "before": show_state("s", &pre), "answered": rs.deltas.iter().map(|d| (d.key.clone(), MRv::from_real(&d.value).show())).collect::<Vec<_>>(), "after": show_state("s", &self.sts[n].replicated_keys)}));
+        }
+    }
+    fn write(&mut self, out: &mut Out, rng: &mut Rng, n: usize, pool: &[ReplicatedValue]) {
+        // a local write between two protocol steps: a new key, a newer value, or a delete
+        let st = &mut self.sts[n].replicated_keys;
+        let k = if st.is_empty() || rng.chance(1, 3) { format!("w{}", rng.below(6)) } else { st.keys().nth(rng.below(st.len() as u64) as usize).unwrap().clone() };
+        let v = gen_value(rng, pool);
+        let nv = match st.get(&k) { Some(old) => old.merge(&v), None => v };
+        st.insert(k, nv);
+        self.mgrs[n].on_local_write();
+        out.op(format!("MWRITE {}", NODE[n]), format!("gen={}", self.mgrs[n].generation));
+        out.count("session:local-write-between-steps");
+    }
+    fn bookkeeping(&mut self, out: &mut Out, rng: &mut Rng, n: usize) {
+        let peer = self.mgrs[rng.below(3) as usize].replica_id;
+        match rng.below(3) {
+            0 => {
+                let now = if rng.chance(1, 6) { self.now.saturating_sub(rng.range(1, 50)) } else { self.now + rng.range(0, 120) };
+                let m = &self.mgrs[n];
+                let prev = std::panic::take_hook();
+                std::panic::set_hook(Box::new(|_| {}));
+                let r = std::panic::catch_unwind(std::panic::AssertUnwindSafe(|| m.should_sync(peer, now)));
+                std::panic::set_hook(prev);
+                out.op(format!("MDUE {} {} {}", NODE[n], peer.0, now), format!("due={}", match r { Ok(true) => "yes", Ok(false) => "no", Err(_) => "underflow" }));
+                out.count(match r { Ok(_) => "session:should_sync", Err(_) => "session:should_sync:clock-went-backwards" });
+            }
+            1 => {
+                self.mgrs[n].on_partition_healed(peer);
+                out.op(format!("MHEAL {} {}", NODE[n], peer.0), format!("dp={}", set_str(&self.mgrs[n].divergent_peers)));
+            }
+            _ => {
+                let now = self.now + rng.range(0, 120);
+                let m = &self.mgrs[n];
+                let prev = std::panic::take_hook();
+                std::panic::set_hook(Box::new(|_| {}));
+                let r = std::panic::catch_unwind(std::panic::AssertUnwindSafe(|| m.peers_needing_sync(now)));
+                std::panic::set_hook(prev);
+                let a = match r {
+                    Ok(l) => {
+                        let mut v: Vec<u64> = l.iter().map(|r| r.0).collect();
+                        let distinct: BTreeSet<u64> = v.iter().cloned().collect();
+                        if distinct.len() != v.len() {
+                            out.violation("C18:session:peers-needing-sync:duplicate", "peers_needing_sync lists a peer twice", json!({"peers": v}));
+                        }
+                        v.sort();
+                        format!("need {}", v.iter().map(|x| x.to_string()).collect::<Vec<_>>().join(","))
+                    }
+                    Err(_) => "need underflow".to_string(),
+                };
+                out.op(format!("MNEED {} {}", NODE[n], now), a);
+            }
+        }
+        // the never-produced queues stay empty
+        if !self.mgrs[n].drain_requests().is_empty() || !self.mgrs[n].drain_responses().is_empty() {
+            out.violation("C18:session:pending-queues", "pending_requests / pending_responses are not empty although nothing produces them", json!({}));
+        }
+    }
+}
+
+#[derive(Clone, Debug)]
+enum Step {
+    Dig(u64, usize),
+    Proc(usize, u64),
+    Req(u64, usize, usize, bool),
+    Handle(u64, usize, u64),
+    Apply(usize, u64, &'static str),
+    Write(usize),
+    Book(usize),
+}
+
+/// one pull r <- p as a flow of message steps, with optional local writes in every gap, an
+/// optional duplicate / misdelivered application
+fn flow(rng: &mut Rng, base: u64, r: usize, p: usize, full: bool) -> Vec<Step> {
+    let mut v = vec![Step::Dig(base, p)];
+    let gap = |rng: &mut Rng, v: &mut Vec<Step>| {
+        if rng.chance(1, 3) {
+            v.push(Step::Write(rng.below(3) as usize));
+        }
+        if rng.chance(1, 5) {
+            v.push(Step::Book(rng.below(3) as usize));
+        }
+    };
+    gap(rng, &mut v);
+    v.push(Step::Proc(r, base));
+    gap(rng, &mut v);
+    v.push(Step::Req(base, r, p, full));
+    gap(rng, &mut v);
+    v.push(Step::Handle(base, p, base));
+    gap(rng, &mut v);
+    v.push(Step::Apply(r, base, "in-order"));
+    if rng.chance(1, 3) {
+        gap(rng, &mut v);
+        v.push(Step::Apply(r, base, "duplicate"));
+    }
+    if rng.chance(1, 6) {
+        v.push(Step::Apply(3 - r - p, base, "third-node")); // the response reaches the node it was not meant for
+    }
+    if rng.chance(1, 6) {
+        v.push(Step::Handle(base + 1, p, base)); // the request is answered a second time, later
+        v.push(Step::Apply(r, base + 1, "late-second-answer"));
+    }
+    v
+}
+
+fn session_ops(out: &mut Out, rng: &mut Rng, contents: [Vec<(String, ReplicatedValue)>; 3], depths: [usize; 3], limit: usize, pool: &[ReplicatedValue], src: &str) {
+    op_reset(out);
+    let interval = *rng.pick(&[0u64, 10, 100, u64::MAX]);
+    let auto = rng.chance(3, 4);
+    let mut se = Sess { mgrs: vec![], sts: vec![], depth: depths.to_vec(), digs: BTreeMap::new(), verdicts: BTreeMap::new(), reqs: BTreeMap::new(), resps: BTreeMap::new(), now: 1000 };
+    for n in 0..3 {
+        let cfg = AntiEntropyConfig { sync_interval_ms: interval, max_keys_per_sync: limit, merkle_tree_depth: depths[n], auto_sync_on_heal: auto };
+        se.mgrs.push(AntiEntropyManager::new(ReplicaId::new(n as u64 + 1), cfg));
+        let mut st = ShardReplicaState::new(ReplicaId::new(n as u64 + 1), ConsistencyLevel::Eventual);
+        st.replicated_keys = build(&contents[n], rng);
+        se.sts.push(st);
+        out.op(format!("MNEW {} {} {} {} {} {}", NODE[n], n + 1, depths[n], limit, interval, auto as u8), "ok".into());
+        se.send_state(out, n);
+    }
+    out.count(if depths[0] == depths[1] && depths[1] == depths[2] { "session:same-depth" } else { "session:depth-mismatch-between-peers" });
+    // two or three flows, interleaved (each keeps its own order): concurrent syncs with several peers
+    let nflows = rng.range(2, 3) as usize;
+    let mut flows: Vec<Vec<Step>> = (0..nflows).map(|i| {
+        let r = rng.below(3) as usize;
+        let p = (r + 1 + rng.below(2) as usize) % 3;
+        let full = rng.chance(1, 4);
+        flow(rng, 10 * (i as u64 + 1), r, p, full)
+    }).collect();
+    let mut script = Vec::new();
+    while flows.iter().any(|f| !f.is_empty()) {
+        let i = rng.below(flows.len() as u64) as usize;
+        if !flows[i].is_empty() {
+            script.push(flows[i].remove(0));
+        }
+    }
+    for st in script {
+        match st {
+            Step::Dig(id, n) => se.dig(out, id, n),
+            Step::Proc(n, id) => se.proc(out, n, id),
+            Step::Req(id, n, p, full) => se.req(out, id, n, p, full),
+            Step::Handle(rid, n, qid) => se.handle(out, rid, n, qid),
+            Step::Apply(n, rid, what) => se.apply(out, n, rid, what),
+            Step::Write(n) => se.write(out, rng, n, pool),
+            Step::Book(n) => se.bookkeeping(out, rng, n),
+        }
+    }
+    // ---- clean-up: full-state pulls in every direction with an ample limit until nothing changes;
+    // every pair of nodes then holds the same state (tie-consistent well-formed values)
+    for m in se.mgrs.iter_mut() {
+        m.config.max_keys_per_sync = usize::MAX;
+    }
+    let mut id = 1000u64;
+    for _round in 0..4 {
+        let before: Vec<_> = se.sts.iter().map(|s| canon(&s.replicated_keys)).collect();
+        for r in 0..3 {
+            for p in 0..3 {
+                if r != p {
+                    id += 1;
+                    let rq = {
+                        let ours = se.mgrs[r].generate_digest(&se.sts[r].replicated_keys);
+                        let pid = se.mgrs[p].replica_id;
+                        se.mgrs[r].create_sync_request(pid, ours, None, 5000)
+                    };
+                    let rs = { let (m, s) = (&mut se.mgrs[p], &se.sts[p].replicated_keys); m.handle_sync_request(rq, s) };
+                    for d in rs.deltas {
+                        se.sts[r].apply_remote_delta(d);
+                    }
+                }
+            }
+        }
+        if before == se.sts.iter().map(|s| canon(&s.replicated_keys)).collect::<Vec<_>>() {
+            break;
+        }
+    }
+    let _ = id;
+    let all_equal = canon(&se.sts[0].replicated_keys) == canon(&se.sts[1].replicated_keys) && canon(&se.sts[1].replicated_keys) == canon(&se.sts[2].replicated_keys);
+    if all_equal {
+        out.count("session:converged-after-cleanup");
+    } else if undelivered(&se.sts[0].replicated_keys, &se.sts[1].replicated_keys).is_empty() && undelivered(&se.sts[1].replicated_keys, &se.sts[2].replicated_keys).is_empty() && undelivered(&se.sts[0].replicated_keys, &se.sts[2].replicated_keys).is_empty() {
+        out.count("excluded:sync:non-commutative-merge-residue");
+    } else {
+        out.violation("C18:session:not-converged-after-cleanup", "after the session, unlimited full-state pulls in every direction do not bring the three nodes to one state",
+            json!({"a": show_state("a", &se.sts[0].replicated_keys), "b": show_state("b", &se.sts[1].replicated_keys), "c": show_state("c", &se.sts[2].replicated_keys), "source": src}));
+    }
+}
+
+/// `run_full_anti_entropy` over three connected simulator nodes, and `heal_partition` (a sync iff
+/// the pair was partitioned and auto_anti_entropy is on)
+fn sim3_ops(out: &mut Out, rng: &mut Rng, contents: [Vec<(String, ReplicatedValue)>; 3], depth: usize, limit: usize, src: &str) {
+    op_reset(out);
+    let mut sim = MultiNodeSimulation::new(3, 7);
+    for i in 0..3 {
+        sim.nodes[i].anti_entropy.config.merkle_tree_depth = depth;
+        sim.nodes[i].anti_entropy.config.max_keys_per_sync = limit;
+        sim.nodes[i].replica_state.replicated_keys = build(&contents[i], rng);
+        op_state(out, NODE[i], depth, &sim.nodes[i].replica_state.replicated_keys);
+    }
+    // heal_partition first (on a, b)
+    let was = rng.chance(2, 3);
+    let auto = rng.chance(2, 3);
+    sim.auto_anti_entropy = auto;
+    if was {
+        if rng.chance(1, 2) { sim.partition(0, 1) } else { sim.partition(1, 0) }
+    }
+    let pre = (canon(&sim.nodes[0].replica_state.replicated_keys), canon(&sim.nodes[1].replica_state.replicated_keys));
+    let syncs0 = sim.anti_entropy_syncs;
+    if rng.chance(1, 2) { sim.heal_partition(0, 1) } else { sim.heal_partition(1, 0) }
+    out.op(format!("HEAL {} {} {}", was as u8, auto as u8, limit),
+        format!("{} | {}", show_state("a", &sim.nodes[0].replica_state.replicated_keys), show_state("b", &sim.nodes[1].replica_state.replicated_keys)));
+    out.count(&format!("sim3:heal:was-partitioned={}:auto={}", was as u8, auto as u8));
+    let changed = pre != (canon(&sim.nodes[0].replica_state.replicated_keys), canon(&sim.nodes[1].replica_state.replicated_keys));
+    if (changed || sim.anti_entropy_syncs != syncs0) && !(was && auto) {
+        out.violation("C18:sim:heal-syncs-unasked", "heal_partition ran an anti-entropy sync although the pair was not partitioned / auto_anti_entropy is off", json!({"was_partitioned": was, "auto": auto, "source": src}));
+    }
+    if !sim.can_communicate(0, 1) {
+        out.violation("C18:sim:heal-leaves-partition", "after heal_partition the two nodes still cannot communicate", json!({"source": src}));
+    }
+    // run_full_anti_entropy: all three pairs
+    for i in 0..3 {
+        op_state(out, NODE[i], depth, &sim.nodes[i].replica_state.replicated_keys);
+    }
+    let pre: Vec<State> = (0..3).map(|i| sim.nodes[i].replica_state.replicated_keys.clone()).collect();
+    sim.run_full_anti_entropy();
+    out.op(format!("SYNC3 {}", limit), (0..3).map(|i| show_state(NODE[i], &sim.nodes[i].replica_state.replicated_keys)).collect::<Vec<_>>().join(" | "));
+    out.count("sim3:run_full_anti_entropy");
+    // oracle: with an ample limit one full pass leaves every key present anywhere on all three
+    // nodes holding the merge of everything (tie-consistent well-formed values)
+    let pop: usize = pre.iter().map(|s| s.len()).max().unwrap_or(0);
+    if limit.max(1) >= 2 * pop + 2 {
+        let keys: BTreeSet<&String> = pre.iter().flat_map(|s| s.keys()).collect();
+        for k in keys {
+            let vals: Vec<MRv> = pre.iter().filter_map(|s| s.get(k)).map(MRv::from_real).collect();
+            // three-way merging needs associativity: claimed by C07 within one CRDT kind only
+            let ok_pair = vals.iter().all(|x| x.wf()) && vals.iter().all(|x| vals.iter().all(|y| x.tie_ok(y) && x.crdt.kind_name() == y.crdt.kind_name()));
+            if !ok_pair {
+                out.count("excluded:sync:tie-inconsistent-or-cross-kind-triple");
+                continue;
+            }
+            // a second pass reaches the fixpoint of three-way merging; after it all nodes must agree
+            let mut sim2_vals: Vec<Option<MRv>> = (0..3).map(|i| sim.nodes[i].replica_state.replicated_keys.get(k).map(MRv::from_real)).collect();
+            sim2_vals.dedup();
+            // (a,b), (a,c), (b,c): after the second pair a and c hold all three values, after the third b too
+            if sim2_vals.len() != 1 {
+                out.violation("C18:sim3:not-merged-after-full-pass", &format!("after run_full_anti_entropy with an ample limit the three nodes hold different values for key {:?}", k),
+                    json!({"key": k, "before": pre.iter().map(|s| s.get(k).map(|v| MRv::from_real(v).show())).collect::<Vec<_>>(),
+                           "after": (0..3).map(|i| sim.nodes[i].replica_state.replicated_keys.get(k).map(|v| MRv::from_real(v).show())).collect::<Vec<_>>(), "limit": limit, "depth": depth, "source": src}));
+            }
+        }
+    }
+}
+
 fn rv_lww(bytes: &[u8], t: u64, r: u64) -> ReplicatedValue {
     MRv { crdt: MCrdt::Lww(crate::enc::MLww { v: Some(bytes.to_vec()), t, r, tomb: false }), vc: None, exp: None, t, r, rf: None }.to_real()
 }
@@ -835,7 +1186,7 @@ fn corpus(out: &mut Out, rng: &mut Rng, thorough: bool) {
     // range?  (depths 59..63: more than isize::MAX bytes -> "capacity overflow" panic, no allocation
     // is attempted; 64 / 65: the shift wraps in release builds.  Depths ~30..58 would really try to
     // allocate 24 * 2^depth bytes and abort the process: not executed.)
-    for d in [59usize, 63, 64, 65, 1000, usize::MAX] {
+    for d in [19usize, 20, 21, 22, 59, 63, 64, 65, 1000, usize::MAX] {
         let empty: State = HashMap::new();
         let prev = std::panic::take_hook();
         std::panic::set_hook(Box::new(|_| {}));
@@ -853,6 +1204,36 @@ fn corpus(out: &mut Out, rng: &mut Rng, thorough: bool) {
             out.violation("C18:config:merkle_tree_depth:digest-panics",
                 &format!("AntiEntropyConfig {{ merkle_tree_depth: {} }} is accepted, and generate_digest / StateDigest::from_state then panics ({}): a legal configuration crashes every digest computation", d, ans),
                 json!({"merkle_tree_depth": d, "call": "StateDigest::from_state(&{}, r1, 0, depth)", "observed": ans, "expected": "a digest, or a rejected configuration"}));
+        }
+    }
+    // the key filters at the boundary of MAX_MERKLE_TREE_DEPTH: the bucket of a key for depth 20, 21, 22, … is
+    // the same and lies inside the digest of that depth
+    {
+        let nb: Vec<usize> = [19usize, 20, 21, 22, 64, usize::MAX].iter().map(|d| {
+            let prev = std::panic::take_hook();
+            std::panic::set_hook(Box::new(|_| {}));
+            let r = std::panic::catch_unwind(|| StateDigest::from_state(&HashMap::new(), ReplicaId::new(1), 0, *d).buckets.len()).unwrap_or(0);
+            std::panic::set_hook(prev);
+            r
+        }).collect();
+        for i in 0..40 {
+            let k = format!("edge{}", i);
+            let v = rv_lww(b"x", 1, 1);
+            let kd = KeyDigest::new(&k, &v);
+            let prev = std::panic::take_hook();
+            std::panic::set_hook(Box::new(|_| {}));
+            let bs = std::panic::catch_unwind(|| [kd.bucket(19), kd.bucket(20), kd.bucket(21), kd.bucket(22), kd.bucket(64), kd.bucket(usize::MAX)]);
+            std::panic::set_hook(prev);
+            out.count("depth-bound:filter-vs-digest-at-the-boundary");
+            match bs {
+                Ok(bs) => {
+                    if (0..6).any(|j| nb[j] != 0 && bs[j] >= nb[j]) || bs[1] != bs[2] || bs[2] != bs[3] {
+                        out.violation("C18:bucket-function-mismatch", &format!("KeyDigest::bucket at depths 19/20/21/22/64/max = {:?}, digests of those depths have {:?} buckets: filter and digest disagree at the depth bound", bs, nb),
+                            json!({"key": k, "buckets": bs, "digest_sizes": nb}));
+                    }
+                }
+                Err(_) => out.violation("C18:config:merkle_tree_depth:digest-panics", "KeyDigest::bucket panics at an extreme depth", json!({"key": k})),
+            }
         }
     }
     // … and a digest-driven exchange at those depths (real code only: whatever depth is configured,
@@ -1018,6 +1399,51 @@ fn scenario(out: &mut Out, rng: &mut Rng, idx: u64) {
         let p = Pair { a: build(&content, rng), b: build(&content, rng), depth };
         msg_ops(out, p, *rng.pick(&[1usize, 5, 1000]), rng.chance(1, 2), 2, &format!("case {}: equal states, message protocol", idx));
     }
+    // (iv) the protocol as a state machine between THREE managers: interleaved pulls, messages
+    // processed late / twice / by the wrong node, local writes between any two steps
+    if rng.chance(1, 5) && !deep {
+        let mut third = content.clone();
+        if !third.is_empty() {
+            let i = rng.below(third.len() as u64) as usize;
+            third[i].1 = gen_value(rng, &pool);
+        }
+        third.push((format!("c{}", rng.below(9)), gen_value(rng, &pool)));
+        let mut seen = BTreeSet::new();
+        third.retain(|(k, _)| seen.insert(k.clone()));
+        let limit = *rng.pick(&[1usize, 2, 5, 1000, 1000]);
+        let depths = if rng.chance(1, 8) { [depth, (depth + 1) % 4, depth] } else { [depth; 3] };
+        session_ops(out, rng, [content.clone(), other.clone(), third.clone()], depths, limit, &pool, &format!("case {}: three-node session", idx));
+        if rng.chance(1, 2) {
+            let l3 = *rng.pick(&[1usize, 3, 1000, 1000]);
+            sim3_ops(out, rng, [content.clone(), other.clone(), third], depth, l3, &format!("case {}: three simulator nodes", idx));
+        }
+    }
+}
+
+/// every public item of the anchored anti-entropy code (scanned from the source this binary was
+/// built against) and how this harness accounts for it
+fn coverage(file: &str, item: &str) -> Option<&'static str> {
+    let f = file.rsplit('/').next().unwrap_or(file);
+    Some(match (f, item) {
+        ("anti_entropy.rs", "AntiEntropyConfig.sync_interval_ms") => "driven: should_sync probes (0 / 1 / 1000 / u64::MAX), sessions (0 / 10 / 100 / u64::MAX; MDUE / MNEED incl. a clock that went backwards)",
+        ("anti_entropy.rs", "AntiEntropyConfig.max_keys_per_sync" | "AntiEntropyConfig::keys_per_sync") => "driven: 0, 1, 2, 5, population/2+1, population, population+…, 1000, usize::MAX on all three paths (G / SYNC / PULL / MHANDLE)",
+        ("anti_entropy.rs", "AntiEntropyConfig.merkle_tree_depth" | "const MAX_MERKLE_TREE_DEPTH") => "driven: 0-3, 8, 15-18 (thorough 17, 20, 21), ALLOC 19..22 / 59 / 63 / 64 / 65 / 1000 / usize::MAX, key-filter boundary probe 19..22, DIFFERENT depths on the two sides (sessions)",
+        ("anti_entropy.rs", "AntiEntropyConfig.auto_sync_on_heal") => "driven: sessions (MHEAL with both values)",
+        ("anti_entropy.rs", "KeyDigest.key_hash" | "KeyDigest.value_hash" | "KeyDigest.timestamp" | "KeyDigest::new" | "KeyDigest::bucket") => "driven: every S line (both hashes recomputed by the model from the bytes: conflicts=0), bucket via D / G / PULL and the bucket-function oracle",
+        ("anti_entropy.rs", "MerkleNode.hash" | "MerkleNode.count" | "MerkleNode.max_timestamp" | "MerkleNode::empty" | "MerkleNode::from_digests" | "MerkleNode::combine") => "driven: D (every non-empty bucket node and the root recomputed by the model), W (word streams)",
+        ("anti_entropy.rs", "StateDigest.root_hash" | "StateDigest.key_count" | "StateDigest.max_timestamp" | "StateDigest.buckets" | "StateDigest::from_state" | "StateDigest::differs_from" | "StateDigest::divergent_buckets") => "driven: D / CMP (same and different depths), ALLOC",
+        ("anti_entropy.rs", "StateDigest.replica_id" | "StateDigest.generation") => "driven: MDIG / MREQ (rid= gen=), process_peer_digest keys its bookkeeping by replica_id",
+        ("anti_entropy.rs", "SyncRequest.from_replica" | "SyncRequest.to_replica" | "SyncRequest.digest" | "SyncRequest.requested_buckets") => "driven: MREQ (all four fields compared), PULL envelope oracle",
+        ("anti_entropy.rs", "SyncResponse.from_replica" | "SyncResponse.deltas" | "SyncResponse.digest") => "driven: MHANDLE (from, keys in answer order, digest root), MAPPLY, PULL",
+        ("anti_entropy.rs", "AntiEntropyManager.config" | "AntiEntropyManager.replica_id" | "AntiEntropyManager.generation" | "AntiEntropyManager.peer_digests" | "AntiEntropyManager.divergent_peers" | "AntiEntropyManager.last_sync_time") => "driven: sessions (gen= / dp= / due= / need answers), process-peer-digest oracle",
+        ("anti_entropy.rs", "AntiEntropyManager.pending_requests" | "AntiEntropyManager.pending_responses" | "AntiEntropyManager::drain_requests" | "AntiEntropyManager::drain_responses") => "driven: sessions check that they stay empty (nothing in src/ pushes to them)",
+        ("anti_entropy.rs", "AntiEntropyManager::new" | "AntiEntropyManager::on_local_write" | "AntiEntropyManager::generate_digest" | "AntiEntropyManager::should_sync" | "AntiEntropyManager::process_peer_digest" | "AntiEntropyManager::create_sync_request" | "AntiEntropyManager::handle_sync_request" | "AntiEntropyManager::on_partition_healed" | "AntiEntropyManager::peers_needing_sync") => "driven: MNEW / MWRITE / MDIG / MDUE / MPROC / MREQ / MHANDLE / MHEAL / MNEED (three managers, interleaved flows), PULL",
+        ("anti_entropy.rs", "AntiEntropyManager::get_keys_in_buckets") => "driven: G, SYNC / SYNC3 / HEAL",
+        ("anti_entropy.rs", "AntiEntropyMessage::DigestExchange" | "AntiEntropyMessage::SyncRequest" | "AntiEntropyMessage::SyncResponse") => "NOT driven: an envelope enum that nothing in src/ constructs or matches; its three payloads are the digest / request / response registers of the sessions",
+        ("multi_node.rs", "SimulatedNode::generate_digest" | "MultiNodeSimulation::run_anti_entropy_sync" | "MultiNodeSimulation::run_full_anti_entropy" | "MultiNodeSimulation::heal_partition" | "MultiNodeSimulation::partition" | "MultiNodeSimulation::can_communicate" | "SimulatedNode::apply_remote_deltas" | "MultiNodeSimulation::new") => "driven: SYNC (two nodes, 1-5 rounds), SYNC3 (three nodes, all pairs), HEAL (was partitioned × auto_anti_entropy)",
+        ("multi_node.rs", _) => "not part of C18: the rest of the simulator (gossip rounds, clients, linearizability checker) is C06 / C20's subject",
+        _ => return None,
+    })
 }
 
 pub fn run(a: &Args) {
@@ -1025,6 +1451,7 @@ pub fn run(a: &Args) {
     let mut rng = Rng::new(a.seed);
     let mut cr = Rng::new(18);
     corpus(&mut out, &mut cr, a.tier == "thorough");
+    crate::srcscan::report(&mut out, "C18", "api_coverage(scanned from the source of the dependency)", &["src/replication/anti_entropy.rs", "src/simulator/multi_node.rs"], &coverage);
     for i in 0..a.n {
         scenario(&mut out, &mut rng, i);
     }
